@@ -296,6 +296,8 @@ func (r *Rediaron) doRemoveNode(ctx context.Context, podname, nodename, endpoint
 		fmt.Sprintf(nodeCaKey, nodename),
 		fmt.Sprintf(nodeCertKey, nodename),
 		fmt.Sprintf(nodeKeyKey, nodename),
+		// the status belongs to the node: it must not outlive it
+		filepath.Join(nodeStatusPrefix, nodename),
 	}
 
 	err := r.BatchDelete(ctx, keys)
